@@ -652,8 +652,16 @@ impl Primitive {
     /// Will error if the primitive is not a number.
     pub fn negate(&mut self) -> Result<()> {
         match self {
-            Primitive::BigInt(x) => *x = -*x,
-            Primitive::Int(x) => *x = -*x,
+            Primitive::BigInt(x) => {
+                *x = x
+                    .checked_neg()
+                    .with_context(|| format!("numeric overflow: -({x})"))?
+            }
+            Primitive::Int(x) => {
+                *x = x
+                    .checked_neg()
+                    .with_context(|| format!("numeric overflow: -({x})"))?
+            }
             Primitive::Float(x) => *x = -*x,
             ty => bail!("cannot negate {ty}"),
         }
